@@ -33,7 +33,7 @@ def random_key(rng, focus=None):
     if focus == "shekel4":
         return ("shekel4", int(rng.integers(1, 4)))
     if focus == "gkls":
-        return ("gkls", 2 + int(rng.integers(0, 2)), int(rng.integers(1, 101)))
+        return ("gkls", 2 + int(rng.integers(0, 4)), int(rng.integers(1, 101)))
     if focus == "grishagin":
         return ("grishagin", int(rng.integers(1, 101)))
     if focus == "hill":
@@ -214,6 +214,18 @@ def run_case(c):
         if key[0] == "stronginc3" and rng.random() < 0.6:
             fid = int(rng.integers(0, 3))
         do_eval(key, inst, y, fid, how)
+        if key[0] == "gkls" and rng.random() < 0.35:
+            # a walk through the attraction balls of this function: consecutive evaluations in different basins (and at minimisers)
+            mn = inst.function.GKLS_minima
+            Mm = np.array(mn.local_min, dtype=float)
+            rr = np.array(mn.rho, dtype=float)
+            for q in range(int(rng.integers(3, 7))):
+                i_ = int(rng.integers(1, len(rr)))
+                u_ = rng.normal(size=len(lo))
+                u_ /= np.sqrt((u_ ** 2).sum())
+                yb = Mm[i_] + rr[i_] * float(rng.uniform(0.0, 0.9)) * u_ * (0.0 if rng.random() < 0.15 else 1.0)
+                if np.all(yb >= lo) and np.all(yb <= hi):
+                    do_eval(key, inst, yb, None, "basin-walk")
         v = rng.random()
         if v < 0.12:
             do_eval(key, inst, y.copy(), fid, "immediate-repeat")
@@ -254,7 +266,7 @@ def finalize(obs, tier, stats):
         return "family-focused histories did not cover all eight families: %s" % obs.get("focus_families"), {}
     if not obs.get("fresh_interpreter_values"):
         return "fresh-interpreter comparison never ran", {}
-    missing = [k for k in ("cross_member_same_point", "how_immediate-repeat", "how_declared-point-first", "holder_reused", "how_repeat-family", "integer_typed_points", "how_lattice", "how_integer-point-first") if not obs.get(k)]
+    missing = [k for k in ("cross_member_same_point", "how_immediate-repeat", "how_declared-point-first", "holder_reused", "how_repeat-family", "integer_typed_points", "how_lattice", "how_integer-point-first", "how_basin-walk") if not obs.get(k)]
     if missing:
         return "history shapes never produced: %s" % missing, {}
     return None, {}
